@@ -203,6 +203,8 @@ def judge(norm, node):
                     blk.remove(st)
             R().visit(node)
     set_parents(node)
+    keyed_snapshot(norm, node, info)
+    set_parents(node)
     class_level_coverage(norm, node, info)
     valid_in_loops = set()
     body = node.body
@@ -360,6 +362,140 @@ def judge(norm, node):
 
 DETERMINED_BY = {'domain': {'attrs', 'shape'}}
 DERIVED = {'graph': {'cliques', 'domain'}}          # JunctionTree.graph = _make_graph() of the cliques and the domain
+
+
+def keyed_snapshot(norm, node, info, rewrite=True):
+    """A single remembered CONSTRUCTION, keyed by value:
+
+        K = frozenset(A) | tuple(A) | tuple(sorted(A))
+        if K == getattr(self, '_k', None) [and ..]:  x = copy.copy(self._v); x.f = p ...
+        else:                                        x = C(.., A, .., p, ..); self._v = copy.copy(x)
+        self._k = K
+
+    is looked through (x = C(..) unconditionally) when the remembered object can only be what C(..) would build now:
+      * self._v and self._k are bound by these two statements and nowhere else (this class, and never from outside), and the snapshot
+        is taken straight after the construction (nothing done to x in between);
+      * every constructor argument is the keyed collection A itself, an attribute of self fixed at construction time, or a value p that
+        the constructor only stores (`self.f = p`) and the hit branch stores again.
+    Trusted (recorded with the method): the constructed object depends on A only through what the key keeps of it (a model's structure
+    is a function of its SET of cliques).  A slot that is written elsewhere as well - e.g. the fitted model of the previous call - is
+    left alone: the rules then see state of an earlier call flowing into this one."""
+    def copied(e):
+        if isinstance(e, ast.Call) and U(e.func) in ('copy.copy', 'copy.deepcopy', 'copy', 'deepcopy') and len(e.args) == 1 and not e.keywords:
+            return e.args[0]
+        return None
+
+    def slot_read(e):
+        if isinstance(e, ast.Call) and U(e.func) == 'getattr' and len(e.args) == 3 and U(e.args[0]) == 'self' and isinstance(e.args[1], ast.Constant) \
+                and U(e.args[2]) == 'None':
+            return e.args[1].value
+        return self_attr(e)
+    me = norm.fi.name
+    found = []
+    for blk in blocks(node):
+        for g in list(blk):
+            if not isinstance(g, ast.If) or len(g.orelse) != 2 or not g.body:
+                continue
+            conj = g.test.values if isinstance(g.test, ast.BoolOp) and isinstance(g.test.op, ast.And) else [g.test]
+            hit = None
+            for c in conj:
+                if isinstance(c, ast.Compare) and len(c.ops) == 1 and isinstance(c.ops[0], ast.Eq):
+                    for a, b in ((c.left, c.comparators[0]), (c.comparators[0], c.left)):
+                        if isinstance(a, ast.Name) and slot_read(b):
+                            hit = (a.id, slot_read(b))
+            if hit is None:
+                continue
+            K, kattr = hit
+            build, snap = g.orelse
+            if not (isinstance(build, ast.Assign) and len(build.targets) == 1 and isinstance(build.targets[0], ast.Name) and isinstance(build.value, ast.Call)):
+                continue
+            x, ctor = build.targets[0].id, build.value
+            if not (isinstance(snap, ast.Assign) and len(snap.targets) == 1 and self_attr(snap.targets[0]) and copied(snap.value) is not None
+                    and U(copied(snap.value)) == x):
+                continue
+            vattr = self_attr(snap.targets[0])
+            first = g.body[0]
+            if not (isinstance(first, ast.Assign) and len(first.targets) == 1 and U(first.targets[0]) == x and copied(first.value) is not None
+                    and self_attr(copied(first.value)) == vattr):
+                continue
+            restored = {}
+            ok = True
+            for st in g.body[1:]:
+                if isinstance(st, ast.Assign) and len(st.targets) == 1 and isinstance(st.targets[0], ast.Attribute) and U(st.targets[0].value) == x \
+                        and isinstance(st.value, ast.Name):
+                    restored[st.value.id] = st.targets[0].attr
+                else:
+                    ok = False
+            i = blk.index(g)
+            stamps = [st for st in blk[i + 1:] if isinstance(st, ast.Assign) and len(st.targets) == 1 and self_attr(st.targets[0]) == kattr and U(st.value) == K]
+            if not ok or len(stamps) != 1:
+                continue
+            # ---- recognised: from here on the verdict is about validity -------------------------------------------------------------
+            binds = {a: [n for n in ast.walk(node) if isinstance(n, (ast.Assign, ast.AugAssign)) and any(self_attr(t) == a for t in
+                         (n.targets if isinstance(n, ast.Assign) else [n.target]))] for a in (vattr, kattr)}
+            exclusive = all(info.assigned_in.get(a, set()) <= {me} and len(binds[a]) == 1 and a not in info.foreign for a in (vattr, kattr))
+            kdefs = [n for n in ast.walk(node) if isinstance(n, ast.Assign) and len(n.targets) == 1 and U(n.targets[0]) == K]
+            A = None
+            if len(kdefs) == 1:
+                kv = kdefs[0].value
+                if isinstance(kv, ast.Call) and U(kv.func) in ('frozenset', 'tuple') and len(kv.args) == 1:
+                    inner = kv.args[0]
+                    if isinstance(inner, ast.Call) and U(inner.func) == 'sorted' and len(inner.args) == 1 and not inner.keywords:
+                        inner = inner.args[0]
+                    if isinstance(inner, ast.Name):
+                        A = inner.id
+            # the constructor: which parameter each argument binds, and what it does with the ones that are restored
+            cname = U(ctor.func).split('.')[-1]
+            init = None
+            from ..normalise import inventory
+            for rel in inventory():
+                if norm.repo.exists(rel):
+                    f_ = norm.repo.module(rel).funcs.get(cname + '.__init__')
+                    if f_ is not None:
+                        init = f_
+                        break
+            args_ok = A is not None and init is not None and not any(isinstance(a, ast.Starred) for a in ctor.args) and all(k.arg for k in ctor.keywords)
+            if args_ok:
+                bound = list(zip(init.params[1:], ctor.args)) + [(k.arg, k.value) for k in ctor.keywords]
+                seen_A = False
+                for p_, a in bound:
+                    if isinstance(a, ast.Name) and a.id == A:
+                        seen_A = True
+                    elif self_attr(a) is not None and info.stable(self_attr(a)):
+                        pass
+                    elif isinstance(a, ast.Constant):
+                        pass
+                    elif isinstance(a, ast.Name) and a.id in restored:
+                        uses = [n for n in ast.walk(init.node) if isinstance(n, ast.Name) and n.id == p_ and isinstance(n.ctx, ast.Load)]
+                        stores = [n for n in ast.walk(init.node) if isinstance(n, ast.Assign) and len(n.targets) == 1 and self_attr(n.targets[0]) == restored[a.id]
+                                  and isinstance(n.value, ast.Name) and n.value.id == p_]
+                        if not (len(uses) == 1 and len(stores) == 1):
+                            args_ok = False
+                    else:
+                        args_ok = False
+                args_ok = args_ok and seen_A
+            why = 'a snapshot of %s(..) taken straight after construction, keyed by `%s`' % (cname, U(kdefs[0].value) if kdefs else K)
+            if not exclusive:
+                why = 'self.%s / self.%s are bound elsewhere as well: what is found there need not be the construction for this key' % (vattr, kattr)
+            elif not args_ok:
+                why = 'the construction `%s` depends on more than the key `%s` and what the hit branch stores again' % (U(ctor)[:80], U(kdefs[0].value) if kdefs else K)
+            found.append((vattr, kattr, exclusive and args_ok, why, g))
+            if not (exclusive and args_ok) or not rewrite:
+                continue          # left alone: the rules judge the remembered object as the cross-call state it is
+            blk[i:i + 1] = [build]
+            blk.remove(stamps[0])
+    return found
+
+
+def keyed_snapshots_of(repo, fi):
+    """the keyed single-construction memos of a source method: [(value attr, key attr, valid, why, node)]"""
+    import types
+    if fi.cls is None:
+        return []
+    info = ClassInfo(repo, fi.module, fi.cls.name)
+    node = clone(fi.node)
+    set_parents(node)
+    return keyed_snapshot(types.SimpleNamespace(fi=fi, repo=repo), node, info, rewrite=False)
 
 
 def class_level_coverage(norm, node, info):
